@@ -126,6 +126,28 @@ def c13(tier, seed):
         if disagree:
             inconclusive.append(f"the encoding disagrees with the real parser on {disagree} corpus strings, e.g. {first_dis[0]!r}: encoding {first_dis[1]} vs parser {first_dis[2]}")
 
+    # --- solver-chosen accepted lines and their lexical variants through the real parser, compared field by field
+    ex_pairs = []
+    for r in results:
+        for a in r.get("examples") or []:
+            gaps = [i for i, ch in enumerate(a) if ch in " \t" and i > 10]
+            vs = [a + " #x", a + " # 2024-01-02 SELL Z 1 @ 1", a + "\n", a + "\r\n", a + "\r", "# c\n" + a, "\n" + a, "\r\n\t \n" + a + "\n\n", a + "\t", a + " "]
+            for g in gaps[:6]:
+                vs.append(a[:g] + " \t " + a[g:])
+            ex_pairs += [(a, v, "same") for v in vs]
+            ex_pairs += [(a, a.upper(), "same"), (a, a.lower(), "same"), (a, a.swapcase(), "same")]
+    ex_bad = []
+    if ex_pairs:
+        recs = [{"id": f"e{i}", "base": "2024-01-10", "lines": [], "opts": {"texts": [a, v], "mode": m}, "values": {}} for i, (a, v, m) in enumerate(ex_pairs)]
+        for (a, v, m), rr in zip(ex_pairs, symx.run_replay("C13parse", recs, "c13ex")):
+            if any(o["v"] == "R" for o in rr["obs"]):
+                ex_bad.append((a, v, rr))
+    for a, v, rr in ex_bad[:5]:
+        path = os.path.join(EVID, "replays", f"{pid}-{len(vio_paths)}.json")
+        json.dump({"property": pid, "harness_prop": "C13parse", "obligation": "C13.variant-parses-the-same", "record": {"id": "ex", "base": "2024-01-10", "lines": [], "opts": {"texts": [a, v], "mode": "same"}, "values": {}}, "parser": rr["extra"]}, open(path, "w"), indent=1)
+        vio_paths.append(path)
+        lines.append(f"VIOLATION property={pid} replay={path}")
+
     # --- obligations
     known = findings.load()
     n_ob = n_dis = 0
@@ -169,11 +191,12 @@ def c13(tier, seed):
     ev = {
         "property_id": pid, "tier": tier, "seed": seed, "level": "model_checking",
         "coverage": {
-            "states": max(1, agree + disagree), "transitions": max(1, n_ob), "traces_validated_against_impl": agree + reproduced,
+            "states": max(1, agree + disagree), "transitions": max(1, n_ob), "traces_validated_against_impl": agree + reproduced + len(ex_pairs) - len(ex_bad),
             "samples": samples or [{"note": "no worker finished"}],
             "exhaustive": not inconclusive,
             "obligations": n_ob, "discharged": n_dis, "corpus_strings_agreeing": agree, "corpus_strings_disagreeing": disagree,
             "counterexamples_replayed": replayed, "counterexamples_reproduced": reproduced,
+            "solver_chosen_lines_with_variants_through_real_parser": len(ex_pairs), "of_which_parsed_differently": len(ex_bad),
             "functions_encoded": ["crates/cgt-core/src/parser.pest (every rule, read through pest_meta's own parser)", "match_nodes! arms of crates/cgt-core/src/parser.rs (pest_consume node matching)"],
             "bounds": f"(DIVIDEND: letter case and trailing comment also at length <= 36 in the quick tier) all byte strings (bytes < 0x80) of length <= {L} that start with the date 2024-01-01, one of the keywords {kws} in any letter case and a blank, and contain no line break or '#'; related to a second string by one lexical edit: appended ' #x' comment, one more space/tab at a symbolic position, upper-casing, appended LF / CR / CRLF, a preceding full-line comment, a preceding blank line",
             "outside_claim": ["lines longer than the bound (ACCUMULATION/CAPRETURN need the thorough tier)", "dates other than the fixed literal", "bytes >= 0x80", "rejection of corrupted text with the error on the offending line", "semantic actions other than node matching (decimal/currency/date conversion)"],
